@@ -11,9 +11,24 @@ import (
 
 // hookedCli wraps the FloatingIP clientset so that the harness can run something at the moment a
 // List call is made (a yield point OUTSIDE the fake clientset's own mutex).
+//
+// It also stands in for the API server's two read paths: a List or Get with resourceVersion "0" may be answered from
+// the server's watch cache, which lags behind the store.  The fake clientset drops the option, so the wrapper
+// answers such reads itself from watchCache - the store as it was at the start of the PREVIOUS history step.
 type hookedCli struct {
 	crd_clientset.Interface
 	onList func()
+	// watch cache of the stand-in API server and the snapshot that becomes the cache at the next step
+	watchCache, nextCache *v1alpha1.FloatingIPList
+	cacheReads            int
+}
+
+// tick: a history step starts - the watch cache advances to the store of one step ago
+func (h *hookedCli) tick() {
+	h.watchCache = h.nextCache
+	if l, err := h.Interface.GalaxyV1alpha1().FloatingIPs().List(context.TODO(), metav1.ListOptions{}); err == nil {
+		h.nextCache = l.DeepCopy()
+	}
 }
 
 func (h *hookedCli) GalaxyV1alpha1() typed.GalaxyV1alpha1Interface {
@@ -38,10 +53,30 @@ func (f *hookedFIP) List(ctx context.Context, opts metav1.ListOptions) (*v1alpha
 	// the yield point is AFTER the API server answered and BEFORE the caller sees the answer: whatever the
 	// hook does is not in the listed snapshot
 	res, err := f.FloatingIPInterface.List(ctx, opts)
+	if opts.ResourceVersion == "0" && err == nil {
+		f.h.cacheReads++
+		res = &v1alpha1.FloatingIPList{}
+		if f.h.watchCache != nil {
+			res = f.h.watchCache.DeepCopy()
+		}
+	}
 	if f.h.onList != nil {
 		cb := f.h.onList
 		f.h.onList = nil
 		cb()
+	}
+	return res, err
+}
+
+func (f *hookedFIP) Get(ctx context.Context, name string, opts metav1.GetOptions) (*v1alpha1.FloatingIP, error) {
+	res, err := f.FloatingIPInterface.Get(ctx, name, opts)
+	if opts.ResourceVersion == "0" && f.h.watchCache != nil {
+		f.h.cacheReads++
+		for i := range f.h.watchCache.Items {
+			if f.h.watchCache.Items[i].Name == name {
+				return f.h.watchCache.Items[i].DeepCopy(), nil
+			}
+		}
 	}
 	return res, err
 }
